@@ -43,6 +43,19 @@ def cases(draw, tier="quick"):
         recipe = draw(st.sampled_from([["msum", blk], ["fro", blk], ["msum", ["mbin", "*", blk, ["M", blk], "right"]], ["trace", blk, "method"]]))
         if draw(st.booleans()):
             recipe = ["bin", "+", recipe, g.var_leaf()]
+    scale = None
+    if draw(st.integers(0, 7)) == 0:
+        # a badly scaled model: the whole expression times a tiny constant.  d(c*f) = c*df exactly, so the comparison
+        # tolerance scales with |c| (nothing may be flushed to zero on the way)
+        scale = draw(st.sampled_from([1e-13, -4e-15, 3e-14, 2.5e-16]))
+        how = draw(st.sampled_from(["c*f", "f*c", "f/(1/c)"]))
+        if how == "c*f":
+            recipe = ["bin", "*", ["const", "pyfloat", scale], recipe]
+        elif how == "f*c":
+            recipe = ["bin", "*", recipe, ["const", "pyfloat", scale]]
+        else:
+            recipe = ["bin", "/", recipe, ["const", "pyfloat", 1.0 / scale]]
+            scale = 1.0 / (1.0 / scale)
     used = sorted(gen.used_vars(recipe, env))
     allv = all_var_names(env)
     if used and draw(st.integers(0, 4)) > 0:
@@ -51,7 +64,7 @@ def cases(draw, tier="quick"):
         wrt = draw(st.sampled_from(allv))
     pts = draw(gen.points(allv, k=3))
     cfg = draw(st.sampled_from(["default", "default", "lowthr"]))
-    return {"env": env, "expr": recipe, "wrt": wrt, "points": pts, "config": cfg, "wrt_fresh": draw(st.integers(0, 3)) == 0,
+    return {"env": env, "expr": recipe, "wrt": wrt, "points": pts, "config": cfg, "wrt_fresh": draw(st.integers(0, 3)) == 0, "scale": scale,
             "newp": {p["name"]: draw(st.sampled_from([0.5, 2.0, 5.0, -1.5, 0.0, 1.0])) for p in env["params"]}}
 
 
@@ -72,6 +85,9 @@ def check(case):
     classes = ["cfg:" + case["config"], "wrt:" + ("occurs" if occurs else "absent")] + \
               ["node:" + k for k in node_kinds(recipe)]
     pv = pvals_of(env)
+    unit = abs(case["scale"]) if case.get("scale") else 1.0
+    if case.get("scale"):
+        classes.append("tiny-overall-factor")
     thr = 1 if case["config"] == "lowthr" else None
     with thresholds(thr), quiet():
         try:
@@ -122,7 +138,7 @@ def check(case):
                         return Result.violation("nonzero-for-absent-variable",
                                                 f"d/d{wrt} {show(recipe)} at {pt} = {got!r}", classes)
                     continue
-                if not (abs(got - ref) <= 1e-9 * (1.0 + shadow)):
+                if not (abs(got - ref) <= 1e-9 * (unit + shadow)):
                     return Result.violation(
                         "gradient-mismatch" if rtag == "initial" else "gradient-stale-after-parameter-update",
                         f"d/d{wrt} {show(recipe)} at {pt} params={pv}: got {got!r}, reference {ref!r} (shadow {shadow:.3g}, {tag})",
